@@ -347,9 +347,13 @@ type rdef struct {
 }
 
 type sgen struct {
-	rng     *vc.Rng
-	ids     map[uint32]bool // shared by the whole run: the compiled batch needs distinct ids
-	goNames map[string]bool // goified top-level names of this schema
+	rng      *vc.Rng
+	ids      map[uint32]bool // shared by the whole run: the compiled batch needs distinct ids
+	goNames  map[string]bool // goified top-level names of this schema
+	parts    map[string][]string
+	style    int // forced clash style (-1: random)
+	minWords int
+	stat     map[string]int
 }
 
 func (g *sgen) id() uint32 {
@@ -407,17 +411,67 @@ func goy(s string) string { return gen.VerifGoify(s, true) }
 
 func (g *sgen) typeName() string {
 	for {
-		n := upperFirst(g.word(1 + g.rng.Intn(3)))
-		if ns := namespaces[g.rng.Intn(len(namespaces))]; ns != "" {
+		k := 1 + g.rng.Intn(3)
+		if g.rng.Intn(3) == 0 {
+			k = 2 + g.rng.Intn(2) // several words: room for snake_case clashes
+		}
+		if k < g.minWords {
+			k = g.minWords
+		}
+		parts := make([]string, k)
+		n := ""
+		for i := range parts {
+			parts[i] = syll[g.rng.Intn(len(syll))]
+			n += upperFirst(parts[i])
+		}
+		ns := namespaces[g.rng.Intn(len(namespaces))]
+		if ns != "" {
 			n = ns + "." + n
 		}
 		if strings.HasPrefix(n, "Vector") || n == "Bool" || n == "Client" {
 			continue
 		}
 		if g.claim(goy(n)) {
+			if g.parts == nil {
+				g.parts = map[string][]string{}
+			}
+			g.parts[n] = parts
 			return n
 		}
 	}
+}
+
+// clashName: a constructor name that differs from the type name t as a string but is (mostly) mangled
+// to the same Go identifier.  style 0: first letter lowered (user = User); 1: snake_case
+// (bad_msg_notification = BadMsgNotification); 2: snake head, camel tail (in_putPeer); 3: capitalised
+// snake (Input_Foo); 4: all lower case (inputfoo = InputFoo: equal ignoring case, but NOT the same Go
+// identifier when the type has several words)
+func (g *sgen) clashName(t string, style int) string {
+	i := strings.LastIndex(t, ".") + 1
+	ns, base, parts := t[:i], t[i:], g.parts[t]
+	switch style {
+	case 1:
+		return ns + strings.Join(parts, "_")
+	case 2:
+		n := parts[0]
+		for j, w := range parts[1:] {
+			if j == 0 {
+				n += "_" + w
+			} else {
+				n += upperFirst(w)
+			}
+		}
+		return ns + n
+	case 3:
+		l := make([]string, len(parts))
+		for j, w := range parts {
+			l[j] = upperFirst(w)
+		}
+		return ns + strings.Join(l, "_")
+	case 4:
+		return ns + strings.ToLower(base)
+	}
+	return ns + strings.ToLower(base[:1]) + base[1:]
 }
 
 // a constructor name for type t; clash => the name differs from the type's only by the first letter's case
@@ -425,8 +479,26 @@ func (g *sgen) ctorName(t string, clash bool, method bool) string {
 	for try := 0; ; try++ {
 		var n string
 		if clash && try == 0 {
-			i := strings.LastIndex(t, ".") + 1
-			n = t[:i] + strings.ToLower(t[i:i+1]) + t[i+1:]
+			st := g.style
+			if st < 0 {
+				st = g.rng.Intn(5)
+			}
+			n = g.clashName(t, st)
+			if n == t { // a one-word type written in snake case is the type name itself
+				n = g.clashName(t, 0)
+				st = 0
+			}
+			if g.stat != nil {
+				same := "same-go-name"
+				if goy(n) != goy(t) {
+					same = "other-go-name"
+				}
+				fold := "equal-fold"
+				if !strings.EqualFold(n, t) {
+					fold = "not-equal-fold"
+				}
+				g.stat[fmt.Sprintf("clash:style%d:%s:%s", st, same, fold)]++
+			}
 		} else {
 			n = g.word(1 + g.rng.Intn(3))
 			if g.rng.Intn(3) == 0 {
@@ -583,20 +655,37 @@ var excludedLines = []string{"int ? = Int;", "long ? = Long;", "double ? = Doubl
 	"invokeAfterMsg#cb9f372d {X:Type} msg_id:long query:!X = X;", "invokeWithLayer#da9b0d0d {X:Type} layer:int query:!X = X;"}
 
 // schemaText builds one schema of the subset
-func (g *sgen) schemaText(size int) (string, []declDef) {
+func (g *sgen) schemaText(size int, forced bool) (string, []declDef) {
 	r := g.rng
 	g.goNames = map[string]bool{"Client": true}
+	g.style = -1
 	nt := 1 + r.Intn(size)
+	if forced && nt < 4 {
+		nt = 4
+	}
 	types := make([]*rtype, nt)
 	var typeNames []string
 	for i := range types {
+		g.minWords = 0
+		if forced && i < 4 {
+			g.minWords = 2
+		}
 		types[i] = &rtype{name: g.typeName()}
 		typeNames = append(typeNames, types[i].name)
 	}
 	var enumTypes []string
-	for _, t := range types {
+	for ti, t := range types {
 		clash := r.Intn(3) == 0
-		switch r.Intn(4) {
+		kind := r.Intn(4)
+		g.style = -1
+		if forced && ti < 4 {
+			// every compiled schema has a multi-constructor, a single-constructor and an enum type whose
+			// constructor clashes with the type name only after mangling, and an all-lower-case near-clash
+			clash = true
+			kind = []int{2, 1, 0, 2}[ti]
+			g.style = []int{1, 1 + r.Intn(3), 1 + r.Intn(3), 4}[ti]
+		}
+		switch kind {
 		case 0: // enum
 			n := 1 + r.Intn(4)
 			for i := 0; i < n; i++ {
@@ -864,14 +953,14 @@ func main() {
 		if tier == "thorough" {
 			nCompiled, nValid, nMalformed, nCursor, tinyLen = 300, 4000, 8000, 10000, 3
 		}
-		g := &sgen{rng: rng.Fork(1), ids: map[uint32]bool{}}
+		g := &sgen{rng: rng.Fork(1), ids: map[uint32]bool{}, stat: r.stat}
 		var valid []string
 		for i := 0; i < nValid; i++ {
 			size := 1 + g.rng.Intn(6)
 			if i < nCompiled {
 				size = 3 + g.rng.Intn(8)
 			}
-			t, decl := g.schemaText(size)
+			t, decl := g.schemaText(size, i < nCompiled)
 			valid = append(valid, t)
 			r.schema("valid", "", t, i < nCompiled, decl...)
 		}
